@@ -108,6 +108,12 @@ func (l *c17Life) judge(st *c17LStream, event string, rng *kit.RNG) {
 	off, err := c17Publish(srv, st.name, vals[0].V)
 	st.paused = false
 	if err != nil {
+		if strings.HasPrefix(err.Error(), "inconclusive") {
+			// a publish that ran into a timeout (Raft / ack / deadline on a loaded
+			// machine) says nothing about the property
+			l.inconc(fmt.Sprintf("after [%s] publish to %s: %v", event, st.name, err))
+			return
+		}
 		rep.Violation("C17:publish-failed:after-"+event, fmt.Sprintf("after [%s] a publish of a %d-byte value to encrypted stream %s (encryption by %s) failed: %v", event, len(vals[0].V), st.name, st.how, err), l.rp(st))
 		l.dead = true
 		return
@@ -259,6 +265,10 @@ func c17LifeScenario(rep *kit.Report, id int, rng *kit.RNG, key string) {
 			req.SegmentMaxBytes = &client.NullableInt64{Value: 8 * 1024}
 		}
 		if err := c.CreateStream(req); err != nil {
+			if c17CreateNoVerdict(err) {
+				l.inconc("creating the stream got no verdict: " + err.Error())
+				return
+			}
 			rep.Violation("C17:create-encrypted-stream-failed", "creating an encrypted stream with a valid master key failed: "+err.Error(), l.rp(st))
 			return
 		}
@@ -411,6 +421,10 @@ func c17ReplicaScenario(rep *kit.Report, id int, rng *kit.RNG, key string) {
 		rep.Inconc(fmt.Sprintf("replica scenario %d [%s]: %s", id, strings.Join(events, " "), what))
 	}
 	if err := c.CreateStream(&client.CreateStreamRequest{Subject: stream, Name: stream, ReplicationFactor: 3, Encryption: &client.NullableBool{Value: true}}); err != nil {
+		if c17CreateNoVerdict(err) {
+			inconc("creating the stream got no verdict: " + err.Error())
+			return
+		}
 		rep.Violation("C17:create-encrypted-stream-failed", "creating an encrypted stream with a valid master key failed: "+err.Error(), replay())
 		return
 	}
